@@ -288,8 +288,11 @@ def C12(ctx):
     return ctx.finish(min_evals=15000, min_buckets=120)
 
 
+NPIPE18 = 16   # pipeline kinds in harness/thrmon.c
+
+
 def C18(ctx):
-    ctx.rule = ("15 pipeline kinds (5 encoder configurations incl. managed and 5.1, encodes of streams shorter than one block, packet decode, vorbisfile linear / seek script / lapped seeks / half-rate / streaming on SHARED "
+    ctx.rule = ("16 pipeline kinds (6 encoder configurations incl. managed, managed with digitally silent channels, and 5.1, encodes of streams shorter than one block, packet decode, vorbisfile linear / seek script / lapped seeks / half-rate / streaming on SHARED "
                 "read-only input bytes, model-made stream decode, header+comment operations, encode-mux-decode); (1) TSan build: rounds of 16 threads released by a barrier, each "
                 "running a pipeline whose solitary output hash was computed beforehand; any ThreadSanitizer report or any hash differing from the solitary run fails; (2) the same "
                 "under ASan; (3) repeatability: every pipeline is run in separate processes under three allocator fill regimes (malloc/free fill 0x00, 0xA5, 0xFF through the "
@@ -303,7 +306,7 @@ def C18(ctx):
     ctx.run("san", "thrmon", "c18t", 4 if quick else 60, batch=1, extra_src=SPEC, workers=2 if quick else 4, timeout=1800)
     base = run.SAN_ENV["ASAN_OPTIONS"]
     regimes = [("fill00", "malloc_fill_byte=0:free_fill_byte=0", "0x00"), ("fillA5", "malloc_fill_byte=165:free_fill_byte=90", "0xA5"), ("fillFF", "malloc_fill_byte=255:free_fill_byte=255", "0x7F")]
-    ncase = 15 * (3 if quick else 40)
+    ncase = NPIPE18 * (3 if quick else 40)
     hashes = {}
     for name, opt, stack in regimes:
         recs = ctx.run("san", "thrmon", "c18h", ncase, extra_src=SPEC,
@@ -315,15 +318,15 @@ def C18(ctx):
         if len(hs) == len(regimes):
             ncmp += 1
             if len(set(hs.values())) != 1:
-                ctx.viols.append({"prop": "C18", "key": "output-depends-on-memory-contents:pipeline-%d" % (cid % 15),
+                ctx.viols.append({"prop": "C18", "key": "output-depends-on-memory-contents:pipeline-%d" % (cid % NPIPE18),
                                   "detail": "case %d: hashes per fill regime %s" % (cid, hs),
                                   "replay": {"flavour": "san", "driver": "thrmon", "mode": "c18h", "seed": ctx.seed, "tier": ctx.tier, "case": cid, "extra": [], "env": {}}})
             else:
-                ctx.buckets.add("c18h|fill-regimes-agree|pipeline-%d" % (cid % 15))
+                ctx.buckets.add("c18h|fill-regimes-agree|pipeline-%d" % (cid % NPIPE18))
     ctx.evals += ncmp
     ctx.add_count("fill_regime_comparisons", ncmp)
     vg = ["valgrind", "-q", "--error-exitcode=88", "--undef-value-errors=yes", "--track-origins=no", "--leak-check=no", "--max-stackframe=8388608"]
-    ctx.run("plain", "thrmon", "c18h", 15 if quick else 150, batch=1, extra_src=SPEC, wrapper=vg, timeout=3000,
+    ctx.run("plain", "thrmon", "c18h", NPIPE18 if quick else 10 * NPIPE18, batch=1, extra_src=SPEC, wrapper=vg, timeout=3000,
             env_extra={"VH_CPU": "2000"})
     return ctx.finish(min_evals=100, min_buckets=40)
 
